@@ -456,26 +456,51 @@ def mem_toks(d):
     return flat
 
 
+def grp_match(crit, a, b):
+    """SnapshotGroup::from_snapshot(a, crit).matches(b) on (host, label); paths and tags are equal in these cases"""
+    return (not crit[0] or a[0] == b[0]) and (not crit[1] or a[1] == b[1])
+
+
 def gen_mem(rng):
     """-> (case line, info for the oracle)"""
     ic, ii = rng.choice([(0, 0), (0, 0), (1, 0), (0, 1), (0, 1), (1, 1)])
     skip = 1 if rng.random() < 0.1 else 0
     focus = rng.random() < 0.5
+    with_sel = rng.random() < 0.5
     states = [mem_state0(rng)]
     log = set()
-    if rng.random() < 0.3:
-        s1 = mem_copy(states[0]); mem_edit(rng, s1, set(), False); states.append(s1)
+    for _ in range(rng.choice([0, 0, 1, 2, 3]) if with_sel else rng.choice([0, 0, 0, 1])):
+        s1 = mem_copy(states[-1]); mem_edit(rng, s1, set(), False); states.append(s1)
     cur = mem_copy(states[-1]); mem_edit(rng, cur, log, focus); states.append(cur)
     n = len(states)
     x = rng.random()
-    if n == 2: pidx = [] if x < 0.6 else [0]
-    else: pidx = [] if x < 0.3 else [1] if x < 0.45 else [0] if x < 0.55 else [1, 0] if x < 0.8 else [0, 1]
+    if x < (0.65 if with_sel else 0.5): pidx = []
+    elif x < 0.8 or n == 2: pidx = [rng.randrange(n - 1)]
+    else: pidx = rng.sample(range(n - 1), 2)
     t = [ic, ii, skip, n]
     for st in states: t += mem_toks(st)
     t += [len(pidx)] + pidx
-    used = [states[i] for i in pidx] if pidx else [states[n - 2]]
+    sel_line = None
+    if with_sel:
+        crit = (1, 1, 1, 0) if rng.random() < 0.5 else tuple(rng.choice([0, 1]) for _ in range(4))
+        times = rng.sample(range(1, 60), n)          # distinct; the new snapshot's own time may be OLDER than a parent's
+        attrs = [(rng.choice([1, 2]), rng.choice([1, 1, 2]), times[k]) for k in range(n)]
+        t += list(crit)
+        for a in attrs: t += list(a)
+        me = attrs[n - 1]
+        if pidx: want = list(pidx)
+        else:
+            cands = [k for k in range(n - 1) if grp_match(crit, me, attrs[k])]
+            want = [max(cands, key=lambda k: attrs[k][2])] if cands else []
+        sel_line = " ".join(map(str, [0, len(pidx)] + pidx + list(crit) + [me[0], me[1], n - 1]
+                                + [v for k in range(n - 1) for v in (k, attrs[k][2], attrs[k][0], attrs[k][1])]))
+        if want and attrs[want[0]][2] > me[2] and not pidx: log.add("selected-parent-newer-than-backup-time")
+        if not want: log.add("no-snapshot-in-group")
+    else:
+        want = list(pidx) if pidx else [n - 2]
+    used = [states[i] for i in want]
     return " ".join(map(str, t)), {"ic": ic == 1, "ii": ii == 1, "skip": skip == 1, "used": used, "cur": cur, "log": log,
-                                    "single": len(used) == 1, "focus": focus}
+                                    "single": len(used) == 1, "focus": focus, "want": want, "sel_line": sel_line}
 
 
 def mem_pairs(par, cur):
@@ -525,6 +550,10 @@ def eval_mem(line, info, out):
         mism.append("forced backup did not read every file (files_new %s of %d)" % (d["f_new"], nfiles))
     got = (int(d["unmod"]), int(d["changed"]), int(d["new"]))
     if sum(got) != nfiles: mism.append("summary counters do not add up: " + out[:200])
+    if "sel" in d and d["sel"] != (",".join(map(str, info["want"])) or "-"):
+        mism.append("get_parent selected %s, expected %s (explicit parents, else latest of the same group)" % (d["sel"], info["want"]))
+    if not info["used"] and got != (0, 0, nfiles):
+        mism.append("no parent selected but files unmodified/changed/new = %s" % (got,))
     if info["single"]:
         exp = [0, 0, 0]
         for pe, c in mem_pairs(info["used"][0], info["cur"]):
@@ -539,6 +568,86 @@ def eval_mem(line, info, out):
     return viol, mism, cls
 
 
+# ------------------------------------------------------------------ iter mode (TreeIterator)
+
+def gen_iter(rng):
+    """-> (case line, expected tokens or None, info).  A forest of explicit / implicit directories and
+    leaves located at an anchor (nothing, `/`, `.`); the stream is its directory walk; styles >= 6 break
+    the walk's guarantees (then only model == implementation is compared)."""
+    style = rng.randint(0, 11)
+    anchor = rng.choice([[], [0], [0], [1]])
+    cnt = [0]
+    def mknode(name, ty):
+        cnt[0] += 1
+        return {"name": name, "ty": ty, "targ": 1 if ty in (2, 3, 4) else 0, "size": rng.choice([0, 5]), "mt": (1000 + cnt[0]) * S + rng.choice([0, 7]),
+                "ct": None, "inode": cnt[0], "other": rng.choice([0o644, 0o700, 0o755]), "content": None, "subtree": None}
+    def forest(depth, must):
+        out, used = [], set()
+        n = rng.choice([1, 1, 2, 3, 4]) if must else rng.choice([0, 1, 2, 3])
+        for _ in range(n):
+            c = rng.randint(0, 9)
+            while c in used: c = rng.randint(0, 9)
+            used.add(c)
+            x = rng.random()
+            if depth < 4 and x < 0.45:
+                ex = rng.random() < 0.7 or depth >= 3
+                nm = c if rng.random() < 0.9 else rng.randint(20, 29)      # as_path: entry named differently from the path component
+                out.append(("D", ex, c, mknode(nm, 1) if ex else None, forest(depth + 1, not ex)))
+            else:
+                out.append(("L", mknode(c, rng.choice([0, 0, 0, 2, 3, 5]))))
+        out.sort(key=lambda w: (w[2] if w[0] == "D" else w[1]["name"]))
+        if style == 7 and len(out) >= 2 and out[0][0] == "D":
+            out.append(("D", True, out[0][2], mknode(out[0][2], 1), []))      # the same directory component again, later
+        if style == 8 and out and out[-1][0] == "L" and rng.random() < 0.5:
+            out[-1][1]["ty"] = 1                                              # a directory node arriving as a plain entry
+        return out
+    ws = forest(0, True)
+    items, exp = [], []
+    def walk(ws, pre):
+        for w in ws:
+            if w[0] == "L":
+                items.append((list(pre), w[1])); exp.append("O:%d:%d:%d" % (w[1]["name"], w[1]["other"], w[1]["mt"]))
+            else:
+                _, ex, c, nd, cs = w
+                p = pre + [(3, c)]
+                if ex:
+                    items.append((list(p), nd)); exp.append("N:%d:%d:%d:%d" % (nd["name"], nd["name"], nd["other"], nd["mt"]))
+                else:
+                    exp.append("N:%d:%d:493:-" % (c, c))
+                walk(cs, p)
+                exp.append("E")
+    walk(ws, [(a,) for a in anchor])
+    wellformed = style <= 5
+    if style == 6 and len(items) > 1: rng.shuffle(items)
+    if style == 9 and len(items) > 1:
+        other = rng.choice([x for x in ([], [0], [1]) if x != anchor])
+        k = rng.randrange(1, len(items))
+        items = items[:k] + [([(a,) for a in other] + [c for c in p if len(c) == 2], nd) for p, nd in items[k:]]
+    if style == 10 and items:
+        k = rng.randrange(len(items)); p, nd = items[k]
+        j = rng.randrange(len(anchor), len(p) + 1); items[k] = (p[:j] + [(2,)] + p[j:], nd)   # `..` never before `/` or `.` (component lists of real paths)
+    if style == 11:
+        items = items[:rng.randrange(len(items) + 1)]                         # a prefix of the walk
+    ncomps = sum(len(p) for p, _ in items)
+    fuel = (2 * len(exp) + 4) if wellformed else (4 * ncomps + 2 * len(items) + 8)
+    t = [fuel, len(items)]
+    for p, nd in items:
+        t.append(len(p))
+        for c in p: t += list(c)
+        t += node_toks(nd)
+    return " ".join(map(str, t)), (exp if wellformed else None), {"style": style, "anchor": anchor, "same_anchor": style not in (9, 10)}
+
+
+def balanced_tokens(toks):
+    d = 0
+    for tk in toks:
+        if tk.startswith("N:"): d += 1
+        elif tk == "E":
+            if d == 0: return False
+            d -= 1
+    return d == 0
+
+
 # ------------------------------------------------------------------ the check
 
 def run(ctx):
@@ -551,10 +660,11 @@ def run(ctx):
         r["failures"].append("fact extraction from archiver/parent.rs (is_parent clauses, shapes of process/set_dir/backup_tree/get_parent) failed: " + err)
     cov["extracted_facts"] = meta
     cov["trusted_base"] += ["props/C11/extract.py (clauses and conjunction of Parent::is_parent -> Extracted.v; shape checks of p_node/process/set_dir/backup_tree/FileArchiver::process/get_parent/archive)",
-                            "crates/core/src/verif_hooks/c11.rs (in-memory backend+index MemTrees; ParentHandle wrapping Parent::new/process/tree_id)"]
+                            "crates/core/src/verif_hooks/c11.rs (in-memory backend+index MemTrees; ParentHandle wrapping Parent::new/process/tree_id; tree_iterator_items wrapping TreeIterator)"]
     ctx.assumptions += [
         "chunking+hashing is a function of the file's bytes and the repository's chunker configuration (Section variable `chunks`); the tree id is a function of the node list (`tid`); no collision-freedom is needed for parent_equals_full",
-        "the source after TreeIterator is a finite tree: directories bracket their entries (NewTree .. EndTree); the composition TreeIterator -> Parent::process -> FileArchiver::process -> TreeArchiver::add is modelled by structural recursion over that tree threading the real Parent state (`arch`); the event-level functions it is built from are the ones compared with the hooked Parent; the composition itself is observed end to end only",
+        "the source walker (LocalSource / any ReadSource) yields a directory walk under one anchor: directories before their content, unique names per directory (hypotheses wfw / anchored of the path-stream theorems); TreeIterator and the item-by-item pipeline are modelled (ModelIter.v), compared with the real TreeIterator (hook) and proved to refine the structural recursion `arch`",
+        "get_parent is modelled for force, plain explicit ids and 'latest of the group'; latest~N, id prefixes and mixing `latest` with ids are not; `pick` = any snapshot of maximal time (ties open in k_smallest_by)",
         "a parent snapshot 'produced by a correct backup' = its trees are `read_all` of some earlier source state; trees missing from the repository are allowed (store returns None), trees present are the ones that were written (`stored`)",
         "premise of parent_equals_full (`visible`): an entry with equal type, size, mtime and (unless ignore_ctime) ctime (None on either side counts as equal, as in the code) has equal content; source leaves carry no content of their own and are not directories; directory entries of parent sources are directories",
         "names are numbers ordered like the byte strings (fixed-width decimal names in the harness); timestamps are whole seconds in the hook cases",
@@ -632,6 +742,29 @@ def run(ctx):
     if e2e_out and len(samples) < 5:
         samples.append({"e2e_case": e2e_lines[0], "result": e2e_out[0]})
 
+    # ---- TreeIterator: the real iterator (hook) vs the extracted model; oracle: the items of a directory walk
+    #      are exactly the bracketed flattening of the walked forest, and always well bracketed
+    iter_cases = [gen_iter(rng) for _ in range(20000 if ctx.thorough() else 2500)] if not ctx.replay else []
+    if ctx.replay and w.get("mode") == "iter": iter_cases = [(w["case"], None, {"style": -1, "same_anchor": False})]
+    iter_lines = [c[0] for c in iter_cases]
+    iter_impl = run_lines(impl, iter_lines, "iter") if iter_lines else []
+    iter_model = run_lines(model, iter_lines, "iter") if (model and iter_lines) else None
+    iter_hist, iter_mism, iter_viol, iter_nontriv = {}, [], [], 0
+    for k, ((ln, exp, info), io) in enumerate(zip(iter_cases, iter_impl)):
+        key = "style_%d" % info["style"]; iter_hist[key] = iter_hist.get(key, 0) + 1
+        toks = [] if io.strip() in ("-", "diverges") else io.split()
+        if io.strip() == "diverges": iter_hist["diverges"] = iter_hist.get("diverges", 0) + 1
+        if any(tk.endswith(":493:-") for tk in toks): iter_hist["synthesised_directories"] = iter_hist.get("synthesised_directories", 0) + 1
+        if iter_model is not None and io.strip() != iter_model[k].strip():
+            iter_mism.append((ln, "TreeIterator: impl %s | model %s" % (io[:300], iter_model[k][:300])))
+        if exp is not None:
+            if toks != exp:
+                iter_viol.append(("TreeIterator does not yield the bracketed flattening of the walked source tree", ln, "impl %s | expected %s" % (io[:300], " ".join(exp)[:300]), "iter"))
+            if len(exp) > 3: iter_nontriv += 1
+        if info["same_anchor"] and io.strip() != "diverges" and not balanced_tokens(toks):
+            iter_viol.append(("TreeIterator yields items that are not well bracketed (EndTree without NewTree, or a directory left open)", ln, io[:300], "iter"))
+    e2e_viol += iter_viol
+
     # ---- in-memory sources through the public Repository::archive (metadata chosen freely)
     mem_viol, mem_mism, mem_hist, mem_nontriv = [], [], {}, set()
     mem_lines = [c[0] for c in mem_cases]
@@ -642,14 +775,23 @@ def run(ctx):
         for x in m: mem_mism.append((ln, x))
         for k in cls: mem_hist[k] = mem_hist.get(k, 0) + 1
         if "reused_and_reread_mixed" in cls: mem_nontriv.add(ln)
+    # the extracted model of get_parent's selection on the same snapshot lists
+    sel_cases = [(info["sel_line"], out) for (ln, info), out in zip(mem_cases, mem_out) if info.get("sel_line") and out.startswith("ok ")]
+    if model and sel_cases:
+        sel_model = run_lines(model, [c[0] for c in sel_cases], "sel")
+        for (sl, out), mo in zip(sel_cases, sel_model):
+            if parse_kv(out).get("sel") != mo.strip():
+                mem_mism.append((sl, "selection: impl %s | model %s" % (parse_kv(out).get("sel"), mo.strip())))
+    mem_hist["selection_cases_compared_with_model"] = len(sel_cases)
     e2e_viol += mem_viol
     e2e_mism += mem_mism
     e2e_nontriv |= mem_nontriv
 
     cov.update({
         "mem_source_cases": len(mem_lines), "distribution_mem": mem_hist,
-        "evaluations": len(lines) + len(e2e_lines) + len(mem_lines),
-        "distinct_nontrivial": len(nontriv) + len(e2e_nontriv),
+        "tree_iterator_cases": len(iter_lines), "distribution_tree_iterator": iter_hist,
+        "evaluations": len(lines) + len(e2e_lines) + len(mem_lines) + len(iter_lines),
+        "distinct_nontrivial": len(nontriv) + len(e2e_nontriv) + iter_nontriv,
         "rule": "hook case = 1-3 parent root trees (second/third = edited copies; missing, repeated, no parents), trees up to depth 3 over 14 names "
                 "(sorted; styles: unsorted, duplicate names, dir entries without subtree; shared, missing and undecodable subtrees), current entries derived "
                 "from the parent entries by: unchanged / size / mtime / ctime (incl. None) / inode (incl. 0) / type / link target / other metadata / removed / added, "
@@ -660,10 +802,10 @@ def run(ctx):
                 "parent removed + repair_index, 15% with the tree pack of a sub-directory removed + repair_index; half of the files start with whole-second mtimes; edits incl. same size + mtime moved within the same second (whole<->sub-second) and same size + mtime restored (only ctime tells; inside the premise unless ctime is ignored) for every option variant; mem case = 2-3 states of an in-memory ReadSource (depth <= 3, 12 names, mtime/ctime from {None, whole second, +1ns, +0.4s, +0.999999999s, next second, far}, inode from {0,11,12,13}), earlier states backed up with force, the last with ignore_ctime x ignore_inode x skip_if_unchanged and latest / explicit / two explicit parents, then forced; edits: size, same size with mtime / ctime changed by seconds or within the second, nothing but bytes (outside), ctime dropped (outside), touch, ctime only, inode, type, add, remove; every file dumped and compared; non-trivial = some files reused and some re-read, inside the premise; distinct by case text",
         "samples": samples, "distribution": {"hook_results": hist, "e2e": e2e_hist},
         "hook_events_compared": nev,
-        "traces_validated_against_impl": len(lines) + len(e2e_lines) + len(mem_lines),
+        "traces_validated_against_impl": len(lines) + len(e2e_lines) + len(mem_lines) + len(iter_lines),
         "e2e_state_pairs": len(e2e_lines),
-        "disagreements_checked": len(mism) + len(viol) + len(e2e_viol) + len(e2e_mism),
-        "model_impl_mismatches": len(mism), "e2e_expectation_mismatches": len(e2e_mism),
+        "disagreements_checked": len(mism) + len(iter_mism) + len(viol) + len(e2e_viol) + len(e2e_mism),
+        "model_impl_mismatches": len(mism) + len(iter_mism), "e2e_expectation_mismatches": len(e2e_mism),
         "oracle_violations": len(viol) + len(e2e_viol)})
 
     seen = set()
@@ -671,11 +813,11 @@ def run(ctx):
         if what in seen: continue
         seen.add(what)
         ctx.violation(what, {"case": ln, "mode": mode, "detail": detail,
-                             "how_to_replay": "echo '<case>' > f; <target>/debug/c11 f %s   (formats: harness/src/bin/c11.rs); ./check C11 --replay <this file>" % (mode if mode in ("e2e", "mem") else "")},
+                             "how_to_replay": "echo '<case>' > f; <target>/debug/c11 f %s   (formats: harness/src/bin/c11.rs); ./check C11 --replay <this file>" % (mode if mode in ("e2e", "mem", "iter") else "")},
                       signature=None)
-    if (mism or e2e_mism) and not (viol or e2e_viol):
-        first = {"case": mism[0][0], "mode": "hook", "difference": mism[0][1]} if mism else {"case": e2e_mism[0][0], "mode": "e2e", "difference": e2e_mism[0][1]}
-        ctx.violation("correspondence broken: %d hook cases differ between the extracted model of Parent::process and the implementation, %d e2e expectations differ, "
-                      "although parent-based and forced trees are still equal" % (len(mism), len(e2e_mism)),
+    if (mism or e2e_mism or iter_mism) and not (viol or e2e_viol):
+        first = {"case": mism[0][0], "mode": "hook", "difference": mism[0][1]} if mism else {"case": iter_mism[0][0], "mode": "iter", "difference": iter_mism[0][1]} if iter_mism else {"case": e2e_mism[0][0], "mode": "e2e", "difference": e2e_mism[0][1]}
+        ctx.violation("correspondence broken: %d hook cases differ between the extracted model of Parent::process and the implementation, %d TreeIterator cases differ, %d e2e expectations differ, "
+                      "although parent-based and forced trees are still equal" % (len(mism), len(iter_mism), len(e2e_mism)),
                       {"correspondence": "props/C11 Model.process_all vs Parent::process (hook c11); e2e summary counters / restores", **first}, no_input=True)
     vlib.finish_broken_obligations(ctx)
